@@ -251,7 +251,7 @@ class Ctx:
 
     # ---------------------------------------------------------------- judge
     def judge(self, module, cfg, obsfile, nrecords=None, env=None, timeout=900, heap="8g",
-              chunk=None, label=None, parallel=6):
+              chunk=None, label=None, parallel=6, suite=None):
         """run a Judge_* spec over obsfile. The spec reads IOEnv.OBS_FILE, writes one line per
         non-ok record to IOEnv.VERDICT_FILE and the number of judged / nontrivial records to
         IOEnv.STATS_FILE; acceptance (whole file consumed) is the spec's POSTCONDITION.
@@ -304,6 +304,9 @@ class Ctx:
             vs = self.read_ndjson(vf)
             for v in vs:
                 v["_obsfile"] = p
+                v["_judge_module"], v["_judge_cfg"] = module, cfg
+                if suite:
+                    v["_suite"] = suite
             return cnt, st, vs
 
         if len(files) > 1:
@@ -435,6 +438,9 @@ def classify(ctx, find_case=None):
             continue
         path = os.path.join(ctx.outdir, "violation-%d.json" % i)
         rec = dict(property=ctx.prop, **{"class": sig[0]}, sig=sig[1], count=len(vs), verdict=strip(vs[0]))
+        for k in ("suite", "judge_module", "judge_cfg"):
+            if vs[0].get("_" + k):
+                rec[k] = vs[0]["_" + k]
         if find_case:
             try:
                 rec["case"] = find_case(vs[0])
